@@ -1139,7 +1139,7 @@ def a_get_dtype(I, args, kw):
 def a_complex_exponential(I, args, kw):
     I.ctx.trusted.add("ASSUMED contract: complex_exponential(x) == cos(x) + i sin(x) (Numba kernel, not extracted)")
     x = args[0]
-    return SymC(I.ctx.uf_apply("cos", [x]), I.ctx.uf_apply("sin", [x]))
+    return SymC(I.ctx.uf_apply("cos", [x]), I.ctx.uf_apply("sin", [x]), arg=x)
 
 
 @_ext("abtem.core.utils.expand_dims_to_broadcast")
